@@ -91,7 +91,7 @@ pub fn run(case: &str) -> String {
 pub fn gen(ctx: &Ctx) {
     let mut rng = Rng::new(ctx.seed, "printer");
     let mut out = Out::new(&ctx.dir, "printer");
-    out.rule = "the four response entry points and write_request: status 100..999 with CR/LF-free reasons (incl. 200 with a custom reason), 0..4 user headers, one case in four with a header history (framing declared, then removed / replaced / reset), \
+    out.rule = "the four response entry points and write_request: status 100..999 with CR/LF-free reasons (incl. 200 with a custom reason), 0..4 user headers, one case in four with a header history (framing declared, then removed / replaced / reset; chunked declared twice or in other spellings; a user-supplied Transfer-Encoding other than chunked, alone, with chunked, replaced or removed), \
                 {nothing, content-length, transfer-encoding: chunked} declared, body lengths dense around 0, 2047/2048/2049, 8191/8192/8193 (thorough: 131071..131073, 300000), \
                 reader piece sizes {1-byte, small, 1000, 4096, whole}, writer acceptance patterns (every short count of the first write for small heads; random short writes), date on/off; declared lengths below / above what the reader delivers around the 8 KiB limit; chunk-size boundaries 15/16, 255/256, 4095/4096, 65535..65537, 131071..131073, 140000 as single chunks. \
                 non-trivial = a non-empty body".into();
@@ -117,7 +117,17 @@ pub fn gen(ctx: &Ctx) {
                 if rng.chance(1, 4) {
                     let wrong = len + 1 + rng.below(40) as usize;
                     let cl = |n: usize| format!("{}:{}", hex(b"content-length"), hex(n.to_string().as_bytes()));
-                    let hist: Vec<String> = match rng.below(8) {
+                    let te = |v: &[u8]| format!("{}:{}", hex(b"Transfer-Encoding"), hex(v));
+                    let hist: Vec<String> = match rng.below(15) {
+                        // chunked declared more than once / in another spelling: still exactly one framing field (F36)
+                        8 => vec!["!T".into(), "!T".into()],
+                        9 => vec![te(b"chunked"), "!T".into()],
+                        10 => vec![te(*rng.pick(&[&b"Chunked"[..], b" chunked", b"chunked\t", b"CHUNKED"]))],
+                        // a user-supplied transfer coding that is not exactly one `chunked` (known finding F37)
+                        11 => vec![te(*rng.pick(&[&b"gzip"[..], b"gzip, chunked", b"chunked, gzip", b"identity"]))],
+                        12 => vec![te(b"gzip"), if rng.chance(1, 2) { te(b"chunked") } else { "!T".into() }],
+                        13 => vec![te(b"gzip"), format!("={}:{}", hex(b"transfer-encoding"), hex(b"chunked"))],
+                        14 => vec![te(b"gzip"), format!("-{}", hex(b"TRANSFER-ENCODING"))],
                         0 => vec![cl(wrong), format!("-{}", hex(b"Content-Length"))],
                         1 => vec![cl(wrong), format!("={}:{}", hex(b"content-length"), hex(len.to_string().as_bytes()))],
                         2 => vec![format!("!L{wrong}"), "!L-".into()],
